@@ -363,6 +363,41 @@ func init() {
 					}
 				}
 			}
+			// parallel tabs: ONE browser starts three logins, then completes them one after the other, honouring every
+			// Set-Cookie (including deletions) of each completion.  With per-request CSRF cookies every one of them
+			// carries its own unmodified state and cookie, so every one must complete, in any order.
+			if lc.perReq {
+				for _, order := range [][]int{{0, 1, 2}, {2, 0, 1}, {1, 2, 0}} {
+					tb := newBrowser()
+					var tabs []*startedLogin
+					for i := 0; i < 3; i++ {
+						if sl := e.startOne(tb, "T", fmt.Sprintf("/tab/%d", i)); sl != nil {
+							tabs = append(tabs, sl)
+						}
+					}
+					if len(tabs) != 3 {
+						continue
+					}
+					for n, i := range order {
+						sl := tabs[i]
+						target, g := e.callbackFor(sl, u, nil)
+						if g == nil {
+							continue
+						}
+						_, held := tb.jar[sl.name]
+						v := e.do(reqSpec{Target: target, Cookie: tb.cookieHeader()})
+						if v.raw != nil {
+							tb.apply(v.raw)
+						}
+						c.casen(fmt.Sprintf("c03|tabs|%+v|%v|%d", lc, order, n), fmt.Sprint(v.Status))
+						c.count("c03:tabs")
+						if !hasSessionSet(v, e.opts.Cookie.Name) {
+							c.violation("C03", "parallel logins in one browser: a callback carrying its own unmodified state and CSRF cookie did not complete after another login had completed",
+								map[string]interface{}{"completion_order": order, "position": n, "status": v.Status, "own_csrf_cookie_still_in_browser": held, "cfg": fmt.Sprintf("%+v", cfg)})
+						}
+					}
+				}
+			}
 			// pairing matrix (thorough): 3 browsers x 2-3 logins each; EVERY (state, cookie) pairing completes iff the
 			// cookie is the unmodified one issued together with that state
 			if c.scale > 1 {
@@ -491,7 +526,7 @@ func init() {
 			e.close()
 		}
 		_ = time.Now
-		c.close([]string{"c03:established", "c03:rejected", "c03:state-variant", "nonce:echo", "nonce:raw", "pkce:S256", "kind:redirect", "kind:errorPage", "c05:rand-fault", "c05:fresh-check", "c08:no-email", "c03:sweep-state", "c03:sweep-cookie"})
+		c.close([]string{"c03:established", "c03:rejected", "c03:state-variant", "nonce:echo", "nonce:raw", "pkce:S256", "kind:redirect", "kind:errorPage", "c05:rand-fault", "c05:fresh-check", "c08:no-email", "c03:sweep-state", "c03:sweep-cookie", "c03:tabs"})
 	})
 }
 
